@@ -199,6 +199,85 @@ func c35NoPermissionStateChange(t *testing.T, rep *vfReport) {
 			}
 		}
 	}
+
+	// ---- permission matrix: user a/p holds exactly ONE permission; every command (JOIN as voter and
+	// as non-voter) is sent with a's credentials. Whatever the node does must be covered by that one
+	// permission according to the documented table.
+	allowed := func(name string, voter bool, perm string) bool {
+		if perm == "all" {
+			return true
+		}
+		switch name {
+		case "EXECUTE":
+			return perm == "execute"
+		case "QUERY":
+			return perm == "query"
+		case "REQUEST":
+			return false // needs query AND execute
+		case "BACKUP", "BACKUP_STREAM":
+			return perm == "backup"
+		case "LOAD":
+			return perm == "load"
+		case "REMOVE_NODE":
+			return perm == "remove"
+		case "NOTIFY":
+			return perm == "join"
+		case "JOIN":
+			if voter {
+				return perm == "join"
+			}
+			return perm == "join-read-only" || perm == "join-read-replica"
+		case "STEPDOWN":
+			return perm == "leader-ops"
+		}
+		return true // GET_NODE_META, LOAD_CHUNK, HIGHWATER_MARK_UPDATE: no permission defined (the last one is the recorded finding)
+	}
+	for _, perm := range []string{"all", "join", "join-read-only", "join-read-replica", "remove", "execute", "query", "status", "ready", "backup", "load", "snapshot", "leader-ops", "ui"} {
+		one := auth.NewCredentialsStore()
+		if err := one.Load(strings.NewReader(fmt.Sprintf(`[{"username":"a","password":"p","perms":[%q]}]`, perm))); err != nil {
+			t.Fatalf("credential store: %v", err)
+		}
+		s.credentialStore = one
+		for _, c := range cmds {
+			c.Credentials = &proto.Credentials{Username: "a", Password: "p"}
+			name := strings.TrimPrefix(c.Type.String(), "COMMAND_TYPE_")
+			if name == "HIGHWATER_MARK_UPDATE" || name == "GET_NODE_META" || name == "LOAD_CHUNK" {
+				continue
+			}
+			voter := c.GetJoinRequest().GetVoter()
+			mu.Lock()
+			calls = nil
+			mu.Unlock()
+			p, _ := pb.Marshal(c)
+			conn, err := tn.Dial(s.Addr(), 5*time.Second)
+			if err != nil {
+				t.Fatalf("dial: %v", err)
+			}
+			conn.SetDeadline(time.Now().Add(20 * time.Second))
+			conn.Write(c35Frame(p))
+			conn.(*net.TCPConn).CloseWrite()
+			io.ReadAll(conn)
+			conn.Close()
+			mu.Lock()
+			got := append([]string(nil), calls...)
+			mu.Unlock()
+			rep.Count("permission-matrix:" + name)
+			rep.Case(fmt.Sprintf("matrix %s voter=%v holding=%s", name, voter, perm), true)
+			if len(got) > 0 && !allowed(name, voter, perm) {
+				sig := fmt.Sprintf("state-change-without-required-permission:%s:holding=%s", name, perm)
+				if name == "JOIN" {
+					sig = fmt.Sprintf("state-change-without-required-permission:JOIN:voter=%v:holding=%s", voter, perm)
+				}
+				rep.Fail(sig, fmt.Sprintf("user a holds only the permission %q; %s (voter=%v) sent with a's credentials: the node performed %v, which that permission does not cover", perm, name, voter, got),
+					map[string]interface{}{"command": name, "voter": voter, "permission_held": perm, "performed": got, "frame_hex": vfHexB(c35Frame(p))})
+			}
+			if len(got) == 0 && allowed(name, voter, perm) {
+				rep.Fail(fmt.Sprintf("refused-although-permission-held:%s:holding=%s", name, perm), fmt.Sprintf("user a holds %q; %s (voter=%v) was refused", perm, name, voter),
+					map[string]interface{}{"command": name, "voter": voter, "permission_held": perm})
+			}
+		}
+	}
+	s.credentialStore = cs
 }
 
 func TestVerifC35Frames(t *testing.T) {
